@@ -78,6 +78,11 @@ func VerifC08Verdict() {
 				verifAssert(got == "ok", "resubmitting-known-header-not-accepted")
 				verifAssert(h.observeRepoN(h.repo, nBefore) == before, "resubmitting-known-header-changed-state")
 				verifAssert(sub.drain("dup:") == 0, "resubmitting-known-header-announced")
+				if err := h.repo.Save(h.ctx); err != nil {
+					verifAssert(false, "save-returns-error")
+					return
+				}
+				verifAssert(storesEqual(storeBefore, h.store), "resubmitting-known-header-changed-what-save-writes")
 			}
 		}
 		verifObserve("step", s, op, idx, want, got)
